@@ -58,7 +58,7 @@ LEVEL_TEXT = ('Generated-input exploration with a validity predicate: the surfac
               'to occur. No claim for stacks outside the generated domain; y7 at a static-liquid surface is not observable.')
 LEVEL_NOTE = ('Trusts the boundary-condition definitions of Takeuchi & Saito 1972 / Saito 1974 as written in the property; dynamic '
               'liquid surface layers are excluded (known crash, C06).')
-CASES = {'quick': 480, 'thorough': 20000}
+CASES = {'quick': 480, 'thorough': 60000}
 SHARDS = {'quick': 16, 'thorough': 16}
 SURF_TOL = 1e-6
 IFACE_TOL = 1e-6
